@@ -99,7 +99,11 @@ def run_case(args):
             outcomes[okey] = outcomes.get(okey, 0) + 1
             if outcome == 'infeasible':
                 continue
-            if outcome.startswith('unmodelled') or outcome == 'cut':
+            if outcome == 'cut':
+                # beyond the stated decision bound (e.g. more iterations of a data-dependent loop): outside the claim
+                recs.append(dict(case=case.name, label='<path>', verdict='cut', why='path exceeds the decision bound %d' % case.max_decisions,
+                                 path=[t for t, _ in c.decisions]))
+            if outcome.startswith('unmodelled'):
                 recs.append(dict(case=case.name, label='<path>', verdict='inconclusive', why=outcome,
                                  path=[t for t, _ in c.decisions]))
                 # claims made before the cut are still solved below
@@ -413,7 +417,7 @@ def write_evidence(cid, tier, seed, mod, cases, results, recs, counts, violation
         paths_explored=sum(res['paths'] for res in results),
         path_outcomes={k: sum(res['outcomes'].get(k, 0) for res in results) for k in
                        set(k for res in results for k in res['outcomes'])},
-        paths_cut=sum(res['stats'].get('paths_cut', 0) for res in results),
+        paths_cut=sum(res['stats'].get('paths_cut', 0) for res in results) + counts.get('cut', 0),
         feasibility_queries=sum(res['stats'].get('feasibility_queries', 0) for res in results),
         queries_unsat=counts.get('unsat', 0),
         queries_violation=counts.get('violation', 0),
